@@ -18,6 +18,9 @@ type Table struct {
 	VersionLen int64
 }
 
+// BaseDSeq is the sequence number of the deployment that exists in the base state.
+const BaseDSeq = 7
+
 func twoPart(x uint64) uint64 {
 	if x == 0 {
 		return 1 << 62
@@ -98,7 +101,7 @@ func (t *Table) TLA() map[string]interface{} {
 		"MinUnitCount": int64(c.MinUnitCount), "MaxUnitCount": int64(c.MaxUnitCount),
 		"MinUnitPrice": int64(c.MinUnitPrice), "MaxUnitPrice": int64(c.MaxUnitPrice),
 		"MaxGroupCount": int64(c.MaxGroupCount), "MaxGroupUnits": int64(c.MaxGroupUnits),
-		"VersionLen": t.VersionLen, "MinDeposit": t.MinDeposit,
+		"VersionLen": t.VersionLen, "MinDeposit": t.MinDeposit, "BaseDSeq": int64(BaseDSeq),
 		"Funds": Funds - t.MinDeposit, // the signer's balance in the base state (after the base deployment's deposit)
 	}
 }
